@@ -381,7 +381,11 @@ func c11Equations(c *ctx) {
 					break
 				}
 			}
-			c.r.Check(found, rule, key, c.fpos(fn), best, fmt.Sprintf("no rejecting equality guard dominating acceptance depends on all of %v (equations found: %d)", spec.need, len(eqs)))
+			seen := ""
+			for _, e := range eqs {
+				seen += fmt.Sprintf(" [%s %v]", e.strength, keys(e.deps))
+			}
+			c.r.Check(found, rule, key, c.fpos(fn), best, fmt.Sprintf("no rejecting equality guard dominating acceptance depends on all of %v (equations found: %d:%s)", spec.need, len(eqs), seen))
 		}
 		// every field constrained by an equation (or hashed into the challenge, which the equations use)
 		hashed := challengeInputs(fn)
